@@ -335,7 +335,7 @@ func c18(c *core.Ctx, r *core.Report) {
 			inner := strings.TrimSuffix(d, ".Frequency")
 			if i := strings.LastIndex(inner, "["); i > 0 && strings.HasSuffix(inner, "]") {
 				idx := inner[i+1 : len(inner)-1]
-				if idx == "$"+idxParam.Name() {
+				if idx == an.ParamDesc(idxParam) {
 					ok = true
 				} else {
 					// field holding the current index: must have been stored from the parameter before the ticker is made
@@ -344,7 +344,7 @@ func c18(c *core.Ctx, r *core.Report) {
 						if !isSt {
 							return
 						}
-						if an.D().Of(st.Addr) == idx && an.D().Of(st.Val) == "$"+idxParam.Name() && an.Dominates(in, tick) {
+						if an.D().Of(st.Addr) == idx && an.D().Of(st.Val) == an.ParamDesc(idxParam) && an.Dominates(in, tick) {
 							ok = true
 						}
 					})
